@@ -45,7 +45,11 @@ ClientLoop:
 			return context.Canceled
 		}
 
-		var currNonce uint64
+		// currNonce is the nonce when we started to access the client: if it
+		// differs once we have the client, the client was released meanwhile.
+		mtx.Lock()
+		currNonce := nonce
+		mtx.Unlock()
 		clientReleased := func() {
 			mtx.Lock()
 			if clientCtxCancel != nil {
@@ -53,7 +57,6 @@ ClientLoop:
 				clientCtxCancel = nil
 			}
 			nonce++
-			currNonce = nonce
 			mtx.Unlock()
 		}
 
@@ -61,6 +64,10 @@ ClientLoop:
 		nextClient, relNextClient, err := r.svc(ctx, clientReleased)
 		if err != nil {
 			return err
+		}
+		if relNextClient == nil {
+			// the release function is optional (see NewAccessClientFunc)
+			relNextClient = func() {}
 		}
 
 		mtx.Lock()
@@ -74,9 +81,7 @@ ClientLoop:
 		mtx.Unlock()
 		if !nextClientOk {
 			// client was released already
-			if relNextClient != nil {
-				relNextClient()
-			}
+			relNextClient()
 			continue
 		}
 
